@@ -7,10 +7,18 @@
     primitive call *inside* an operation (crash points) is decided by the
     correspondence streams of this property (model and implementation stopped
     after k calls, for every k) and not yet by a theorem: C02_between_operations
-    is therefore labelled partial. *)
+    is therefore labelled partial.
+
+    The laws are hypotheses of [C02_between_operations_partial]; they are
+    proved for the concrete generic layering (two PrefixFS with disjoint
+    prefixes over the OS filesystem) in Proofs/LawsOsfs*.v, which gives the
+    closed [C02_concrete_between_operations_partial] below.
+    Proofs/ConcreteExample.v exhibits a non-trivial instance of its
+    hypotheses ([c02_concrete_instance]). *)
 From stdpp Require Import gmap.
 From BFS Require Import Spec.CopySpecs.
 From BFS Require Import Proofs.BackupCopy Proofs.BackupTry Proofs.BackupRollback Proofs.BackupC01.
+From BFS Require Import Spec.ViewOsfs Proofs.LawsOsfs.
 
 Section C02.
   Variables base backup : fsapi.
@@ -74,6 +82,22 @@ Theorem C02_between_operations_partial :
        exists n0 nk, B0 !! p = Some n0 /\ Vk w !! p = Some nk /\ copy_of n0 nk).
 Proof. exact c02_between_operations. Qed.
 Print Assumptions C02_between_operations_partial.
+
+(** the same, closed, for the concrete layering base = PrefixFS([pa]), backup =
+    PrefixFS([pb]) over the OS filesystem of the model *)
+Theorem C02_concrete_between_operations_partial :
+  forall pa pb, prefix_ok pa -> prefix_ok pb -> disjoint_prefixes pa pb ->
+  forall B0, all_small B0 ->
+  forall w0 ops w,
+    initial (Vp pa) (Vp pb) clean clean (acc_p pa) (acc_p pb) B0 w0 ->
+    good_run (cfg_base (gcfg pa pb)) (cfg_backup (gcfg pa pb)) (Vp pa) w0 ops w ->
+    (forall p n0, B0 !! p = Some n0 -> p <> s_root ->
+       sonode_eqv (Vp pa w !! p) (Some n0) \/
+       exists nk, Vp pb w !! p = Some nk /\ copy_of n0 nk) /\
+    (forall p, p <> s_root -> Vp pb w !! p <> None ->
+       exists n0 nk, B0 !! p = Some n0 /\ Vp pb w !! p = Some nk /\ copy_of n0 nk).
+Proof. exact c02_concrete. Qed.
+Print Assumptions C02_concrete_between_operations_partial.
 
 (** a failed or successful [tryBackup] never modifies the base view and keeps
     the invariant (in particular what was copied stays copied) *)
